@@ -61,6 +61,10 @@ Record lockfacts := {
   (* LockWithTimeout *)
   lwt_runs_lock_with_cancel_store : bool;
   lwt_unlock_on_timeout : bool;
+  (* parallelisation.RunActionWithTimeoutAndCancelStore *)
+  lwt_registers_cancels_in_store : bool;   (* store.RegisterCancelFunction(timeoutCancel) and (actionCancel) *)
+  lwt_timeout_cancels_store : bool;        (* timeout branch: store.Cancel() instead of actionCancel(); timeoutCancel() *)
+  lwt_success_keeps_action_context : bool; (* the success path does not cancel the action's context (the heartbeat's parent) *)
   (* Unlock *)
   ul_cancel_first : bool;
   ul_rm_lockpath : bool;
@@ -85,6 +89,7 @@ Definition expected_facts : lockfacts := {|
   thr_nil_stale := false; thr_op := OpGt; thr_mult := 2; thr_ms_both_sides := true;
   lk_ctx_check_first := true; lk_retry_error := ELocked; lk_success_returns_nil := true; lk_other_returns_err := true;
   lwt_runs_lock_with_cancel_store := true; lwt_unlock_on_timeout := false;
+  lwt_registers_cancels_in_store := true; lwt_timeout_cancels_store := false; lwt_success_keeps_action_context := true;
   ul_cancel_first := true; ul_rm_lockpath := true; ul_rm_error_retried := true; ul_recheck_exists := true;
   ul_attempts := 10; ul_retry_context := true;
   hb_body := [HCtxCheckReturn; HNow; HWriteIgnoreErr; HChtimesIgnoreErr; HSleepPeriodMinusMs 1] |}.
@@ -138,3 +143,10 @@ Definition cond_release (F : lockfacts) : bool :=
 Definition cond_threshold (F : lockfacts) : bool :=
   cmpop_beq (thr_op F) OpGt && Nat.eqb (thr_mult F * hb_period_ms F) 100 &&
   period_field_beq (is_empty_period F) PHeartBeat && period_field_beq (is_files_period F) PHeartBeat && thr_ms_both_sides F.
+
+(* a holder's heartbeat writer is ended by an Unlock on its lock object (or the death of the process) and by nothing
+   else: a timed-out LockWithTimeout on the same object cancels only its own contexts, a successful one keeps the context
+   its heartbeat derives from, the heartbeat loop goes on after a failed write and checks its context once per period *)
+Definition cond_heartbeat (F : lockfacts) : bool :=
+  negb (lwt_timeout_cancels_store F) && lwt_success_keeps_action_context F && negb (lwt_unlock_on_timeout F) &&
+  negb (hb_stops_on_write_error F) && tl_hb_ctx_with_cancel_of_ctx F && tl_hb_cancel_registered F.
